@@ -245,3 +245,176 @@ def c17(c):
 
 
 REGISTRY.update({"C13": c13, "C16": c16, "C17": c17})
+
+
+# ------------------------------------------------------------------ C14
+import wf_checks as W
+
+
+def c14(c):
+    """Validator soundness and completeness against spec/FlowWF.tla and spec/SliceMapTypes.tla."""
+    cff = c.build_cff()
+    rng = random.Random(c.seed)
+    # (1) design level: the validator as written (transcribed in FlowWF.tla) agrees with the property on every small graph
+    if c.quick:
+        W.enum_graphs(c, 2, 2, 2, 1, name="wf_k2", workers=16, dump=False)           # 223 k graphs, 10 s
+    else:
+        W.enum_graphs(c, 3, 2, 2, 1, name="wf_k3", workers=16, dump=False, timeout=3400)
+        W.enum_graphs(c, 2, 3, 1, 1, name="wf_t3", workers=16, dump=False, timeout=3400)
+    # (2) binding: every enumerated graph of the smaller scope through the real cff
+    graphs, _ = W.enum_graphs(c, 2, 2, 1, 1, name="wf_dump", workers=1)
+    good = [g for g in graphs if not g["ill"]]
+    bad = [g for g in graphs if g["ill"]]
+    if c.quick:
+        bad = rng.sample(bad, min(len(bad), 15000))
+    items = [(i, g["g"], g["ill"], g["defects"]) for i, g in enumerate(good + bad)]
+    c.log("cff on %d enumerated graphs (%d well-formed)" % (len(items), len(good)))
+    n = W.check_graphs(c, cff, items, "enum")
+    c.cov["traces_validated_against_impl"] += n
+    c.cov["evaluations"] += n
+    # (3) random larger graphs and every single-defect mutation of them
+    nbase = 150 if c.quick else 1500
+    for rnd in range(1 if c.quick else 4):
+        ritems, k = [], 0
+        for b in range(nbase // (1 if c.quick else 4)):
+            g = W.gen_wf_graph(rng, rng.randint(2, 7))
+            k += 1
+            ritems.append(dict(id=k, g=g, label="base"))
+            for lab, m in W.mutations(g, rng):
+                k += 1
+                ritems.append(dict(id=k, g=m, label=lab))
+        v = W.eval_graphs(c, ritems, name="wfeval%d" % rnd)
+        basebad = [i for i in ritems if i["label"] == "base" and v[i["id"]]["ill"]]
+        if basebad:
+            raise Inconclusive("the generator of well-formed graphs produced an ill-formed one: %s" % basebad[0])
+        c.log("cff on %d random graphs and mutations" % len(ritems))
+        n = W.check_graphs(c, cff, [(i["id"], i["g"], v[i["id"]]["ill"], v[i["id"]]["defects"]) for i in ritems], "rand%d" % rnd)
+        c.cov["traces_validated_against_impl"] += n
+        c.cov["evaluations"] += n
+        if rnd == 0:
+            ex = next(i for i in ritems if i["label"].startswith("edge") and v[i["id"]]["ill"])
+            c.cov["samples"].append(dict(graph=ex["g"], mutation=ex["label"], verdict=v[ex["id"]]))
+    # (4) Slice / Map assignability lattice
+    n, cases = W.check_slicemap(c, cff)
+    c.cov["traces_validated_against_impl"] += n
+    c.cov["evaluations"] += n
+    c.cov["samples"].append(dict(slice_map_cases=cases[100:103]))
+    c.assumptions += ["flows are rendered with struct value types and literal task functions; 'supported signatures' only",
+                      "a flow counts as rejected iff cff prints a diagnostic positioned inside its source range",
+                      "the Slice/Map lattice (14 types) is cross-checked against the Go type checker before use"]
+    return c.finish("model_checking", "spec: TLC checks on every flow graph of the listed scopes that the validator as written (FlowWF!CffRejects, "
+                    "a transcription of compile.go/cycle.go) rejects exactly the ill-formed graphs (FlowWF!IllFormed); impl: one evaluation = "
+                    "one flow (or Slice/Map case) rendered to Go and judged by the real cff: every TLC-enumerated graph of the smaller scope "
+                    "(well-formed ones also in shuffled option orders), seeded random graphs of 2-7 tasks with every single-defect mutation "
+                    "judged by FlowWFEval.tla, and every (element, parameter, position) triple of SliceMapTypes.tla")
+
+
+REGISTRY.update({"C14": c14})
+
+
+# ------------------------------------------------------------------ C20
+def ret_events(trace):
+    """exec -> (kind, errs, toks) of the directive's return, and exec -> list of ustart (u, idx, toks)."""
+    rets, calls = {}, {}
+    for l in open(trace):
+        if '"ev":"ret"' in l or '"ev":"ustart"' in l:
+            e = json.loads(l)
+            if e["ev"] == "ret":
+                rets[e["exec"]] = (e["kind"], sorted((t[0], t[1]) for t in e["errs"]), e["toks"])
+            else:
+                calls.setdefault(e["exec"], []).append((e["u"], e["idx"], tuple(e["toks"])))
+    return rets, calls
+
+
+def deterministic(sc):
+    """The outcome of the directive is a function of the scenario: at most one fault, no cancellation."""
+    return sc["cancel"] == "none" and len([k for k, v in sc["out"].items() if v in ("err", "panic")]) <= 1
+
+
+def c20(c):
+    """Generation modes agree: source-map = base up to comments and line directives (token streams) and behaves
+    the same (same monitor); modifier mode on the plain subset compiles and returns the same results and errors."""
+    cff = c.build_cff()
+    tool = c.build_go("./cmd/modecmp", "modecmp", tags="")
+    to20 = lambda p: "C20"
+    # (1) base vs source-map, with and without -auto-instrument: identical token streams
+    rounds = 1 if c.quick else 4
+    npairs = 0
+    for r in range(rounds):
+        root, pk, jobs = G.make_corpus(c, 120 if c.quick else 300, 80 if c.quick else 200, 0, seed_off=400 + r)
+        for extra in ((), ("-auto-instrument",)):
+            outs = {}
+            for mode in ("base", "source-map"):
+                problems = G.generate(c, cff, root, pk, mode, extra)
+                if problems:
+                    if mode == "source-map" and "base" in outs:
+                        c.violation("C20", "source-map mode fails on a corpus base mode accepts: " + problems[0][2][-800:],
+                                    dict(kind="mode-gen", seed_off=400 + r, extra=list(extra)))
+                    else:
+                        c.inconclusive.append("cff (%s) failed on the rendered corpus: %s" % (mode, problems[0][2][-300:]))
+                    break
+                d = os.path.join(c.scratch, "modeout-%d-%s-%s" % (r, mode, "ai" if extra else "plain"))
+                os.makedirs(d)
+                for pkg in pk:
+                    for f in os.listdir(os.path.join(root, pkg)):
+                        if f.endswith("_gen.go"):
+                            shutil.copy(os.path.join(root, pkg, f), os.path.join(d, pkg + "-" + f))
+                outs[mode] = d
+            if len(outs) < 2:
+                continue
+            args = []
+            for f in sorted(os.listdir(outs["base"])):
+                args += [os.path.join(outs["base"], f), os.path.join(outs["source-map"], f)]
+            res = json.loads(c.run([tool] + args, 600).stdout)
+            npairs += res["pairs"]
+            for fd in res["findings"][:10]:
+                c.violation("C20", "source-map output is not base output up to comments and line directives: %s: %s" %
+                            (os.path.basename(fd["base"]), fd["what"]), dict(kind="mode-tokens", seed_off=400 + r, extra=list(extra), finding=fd))
+            for d in outs.values():
+                shutil.rmtree(d, ignore_errors=True)
+    c.cov["token_stream_pairs"] = npairs
+    c.cov["evaluations"] += npairs
+    # (2) source-map code behaves as the reference monitor says (same programs and scenarios pass in base mode
+    #     in the C02..C18 checks)
+    G.pipeline(c, 60 if c.quick else 400, 40 if c.quick else 300, 4 if c.quick else 10, seed_off=410, mode="source-map", remap=to20)
+    # (3) modifier mode on the plain subset
+    for r in range(1 if c.quick else 4):
+        rng = random.Random(c.seed * 31 + r)
+        progs = [render.gen_flow(rng, "F%d" % i, max_tasks=5, plain=True) for i in range(1, (120 if c.quick else 300) + 1)]
+        for p in progs:
+            p["style"]["shadow"] = []
+        ib, im = {}, {}
+        nb = G.pipeline(c, 0, 0, 4 if c.quick else 10, seed_off=420 + r, progs=progs, mode="base", info=ib)
+        nm = G.pipeline(c, 0, 0, 4 if c.quick else 10, seed_off=420 + r, progs=json.loads(json.dumps(progs)), mode="modifier", remap=to20, info=im)
+        if not nb or not nm or "trace" not in ib or "trace" not in im:
+            continue
+        rb, cb = ret_events(ib["trace"])
+        rm, cm = ret_events(im["trace"])
+        ncmp = 0
+        for job in ib["jobs"]:
+            if not deterministic(job["sc"]):
+                continue
+            ex = job["exec"] * 100
+            if ex not in rb or ex not in rm:
+                c.inconclusive.append("execution %d missing from a trace" % ex)
+                continue
+            ncmp += 1
+            if rb[ex] != rm[ex]:
+                c.violation("C20", "modifier-mode code returns %s where base-mode code returns %s (program %s, scenario %s)" %
+                            (rm[ex], rb[ex], job["prog"], job["sc"]["out"]), dict(kind="mode-ret", job=job, base=rb[ex], modifier=rm[ex]))
+            elif not [k for k, v in job["sc"]["out"].items() if v in ("err", "panic")] and sorted(cb.get(ex, [])) != sorted(cm.get(ex, [])):
+                # which tasks run before a failure stops the flow depends on the schedule; without a failure the calls are determined
+                c.violation("C20", "modifier-mode code invokes tasks with other values than base-mode code (program %s, scenario %s)" %
+                            (job["prog"], job["sc"]["out"]), dict(kind="mode-calls", job=job))
+        c.cov["mode_comparisons"] = c.cov.get("mode_comparisons", 0) + ncmp
+    c.assumptions += ["'up to comments and line directives' = equal go/scanner token streams with comments dropped",
+                      "modifier subset: flows of Params, Results, Concurrency and plain Tasks (renderer option plain)",
+                      "results/errors are compared only for scenarios whose outcome is schedule-independent (at most one fault, no cancellation); "
+                      "all scenarios are checked against the monitor DirSys.tla"]
+    return c.finish("model_checking", "the same monitor spec DirSys.tla (via DirTrace.tla, TLC) is the reference for all three modes: one evaluation = one "
+                    "execution of freshly generated source-map or modifier code checked by it, plus, per (program, scenario) with a schedule-"
+                    "independent outcome, equality of base and modifier return events; source-map vs base additionally compared as token streams "
+                    "for every generated file, with and without -auto-instrument")
+
+
+REGISTRY.update({"C20": c20})
